@@ -25,3 +25,10 @@ VARIANTS = [
     M('C03', 'refactor-fine-class-locals', E(RX, "        cats = self.Cats\n        if c.isdecimal():\n            return cats.Digit.code", "        cats = self.Cats\n        if c.isdecimal():  # decimal digits only\n            return cats.Digit.code"),
       kind='refactor'),
 ]
+
+VARIANTS += [
+    M('C03', 'regex-module-instead-of-re', E(RX, "import re\n", "from tdda.rexpy.relib import re\n"), rule='C03-ENGINE', key='rexpy:re'),
+    M('C03', 'output-categories-built-late', [E(RX, "        if dialect is not None:\n            self.OutCats = Categories(self.thin_extras(extra_letters),\n                                      full_escape=full_escape,\n                                      dialect=dialect)  # output dialect\n        self.full_escape = full_escape", "        self.extra_letters_arg = extra_letters\n        self.full_escape = full_escape"),
+                                               E(RX, "    def convert_rex_to_dialect(self):\n", "    def convert_rex_to_dialect(self):\n        if self.dialect is not None:\n            self.OutCats = Categories(self.thin_extras(self.extra_letters_arg),\n                                      full_escape=self.full_escape,\n                                      dialect=self.dialect)\n")],
+      rule='C03-CATSYNC', key='Categories'),
+]
